@@ -137,7 +137,7 @@ func New(cfg Config) *Sys {
 	if cfg.Chains == 3 {
 		names = append(names, C)
 	}
-	accts := []string{"r1", "r2", "u1", "u2", "out", "r3", "r4", "x1"}
+	accts := []string{"r1", "r2", "u1", "u2", "out", "r3", "r4", "x1", "r6", "r7"}
 	for _, n := range names {
 		s.w.Add(n, world.Options{Accounts: accts})
 	}
@@ -163,6 +163,7 @@ func New(cfg Config) *Sys {
 				}
 				world.RegisterRelayers(c, ctx, m, "r1", "r2")
 			}
+			world.RegisterRelayersAs(c, ctx, "elsewhere-2", sharedAddr, "r1")
 			// r3 relays too, but the address it registered here for a counterparty is one that nobody registered over there
 			// for this chain: acknowledgements of packets it delivers name a fee recipient the source chain's registry
 			// cannot resolve (the source chain must then refuse the acknowledgement, not process it half)
@@ -184,6 +185,16 @@ func New(cfg Config) *Sys {
 					c.App.XIBCKeeper.ClientKeeper.RegisterRelayers(ctx, c.Accounts["r4"].Acc.String(), chains, empty)
 				}
 				c.App.XIBCKeeper.ClientKeeper.RegisterRelayers(ctx, c.Accounts["x1"].Acc.String(), []string{"elsewhere-1"}, []string{strings.ToLower(c.Accounts["x1"].Eth.String())})
+				// the "shared address" relayer v (whichever of r6, r7 sorts after r1 in the registry) is registered for every
+				// counterparty under one address of its own; r1 — registered for the same chains under its usual address — also
+				// holds exactly that address, but for a chain outside the world: an acknowledgement naming it means v, not r1
+				if v := s.sharedVictim(c); v != "" {
+					shared := make([]string, len(chains))
+					for i := range shared {
+						shared[i] = sharedAddr
+					}
+					c.App.XIBCKeeper.ClientKeeper.RegisterRelayers(ctx, c.Accounts[v].Acc.String(), chains, shared)
+				}
 			}
 			u1 := c.Accounts["u1"]
 			// origin ERC-20 of this chain (deployed by u1, who holds minter role) with balance for u1
@@ -286,6 +297,20 @@ func (s *Sys) units(tok common.Address, v *big.Int) int64 {
 	return q.Int64()
 }
 
+// sharedAddr is an address two relayers hold, each for another chain.
+const sharedAddr = "0x5aa5000000000000000000000000000000005aa5"
+
+// sharedVictim names the account (r6 or r7) that plays the relayer registered under sharedAddr: one whose registry entry
+// sorts after r1's (the registry is walked in key order); "" if neither does.
+func (s *Sys) sharedVictim(c *world.Chain) string {
+	for _, n := range []string{"r6", "r7"} {
+		if c.Accounts[n].Acc.String() > c.Accounts["r1"].Acc.String() {
+			return n
+		}
+	}
+	return ""
+}
+
 // ghostAddr is the address relayer r3 registered on chain `on` as its own address on chain `of`.
 func ghostAddr(on, of string) string { return world.NewAccount("ghost-" + on + "-" + of).Acc.String() }
 
@@ -342,7 +367,10 @@ func (s *Sys) Ops() []string {
 			if f == "g4" && t.Dst != B {
 				continue // r4 relays on chain B only
 			}
-			if (f == "g3" || f == "g4") && !strings.Contains(t.Kind, "+callrevert") && t.Kind != "feeonly1" {
+			if f == "g6" && s.sharedVictim(s.w.Chains[t.Dst]) == "" {
+				continue
+			}
+			if (f == "g3" || f == "g4" || f == "g6") && !strings.Contains(t.Kind, "+callrevert") && t.Kind != "feeonly1" {
 				continue // the unresolvable fee recipient matters where an error acknowledgement must refund and where a fee is escrowed
 			}
 			out = append(out, fmt.Sprintf("recv %s %s", t.ID, f))
@@ -947,6 +975,8 @@ func (s *Sys) recvMsg(t *transfer, form string) (msgs []sdk.Msg, signer world.Ac
 		signer = dst.Accounts["r3"]
 	case "g4":
 		signer = dst.Accounts["r4"]
+	case "g6":
+		signer = dst.Accounts[s.sharedVictim(dst)]
 	case "reenc":
 		bz = reencode(bz)
 	case "alt":
@@ -1556,12 +1586,21 @@ func (s *Sys) GenuineAck(id, signer string) (*packettypes.MsgAcknowledgement, *w
 	return m, src
 }
 
-// Run applies a scripted list of operations and panics on any monitor violation (fixture building).
+// FixtureViolation is what Run panics with: a monitor reported a violation while a check was building its fixture history.
+type FixtureViolation struct {
+	Op    string
+	Viols []bfs.Viol
+}
+
+func (f FixtureViolation) String() string { return fmt.Sprintf("fixture op %q: %v", f.Op, f.Viols) }
+
+// Run applies a scripted list of operations and panics (with a FixtureViolation) on any monitor violation: a history that
+// every check takes for granted does not even run cleanly; the check's runner reports it as a violation, not as a crash.
 func (s *Sys) Run(ops ...string) {
 	for _, op := range ops {
 		_, _, vs := s.Apply(op)
 		if len(vs) > 0 {
-			panic(fmt.Sprintf("fixture op %q: %v", op, vs))
+			panic(FixtureViolation{op, vs})
 		}
 	}
 }
@@ -1619,6 +1658,10 @@ var UpgradeScript = []string{"send A B erc20 3", "send A B native 1", "send A C 
 // EmptyRelayerScript: packets with a fee and with a reverting call are delivered by the relayer that registered an empty
 // address for the source chain; their acknowledgements name nobody the source chain knows (it must refuse them whole:
 // no status, no refund, no fee to anybody — in particular not to a relayer of some other chain).
+// SharedAddressScript: a packet with a fee is delivered by the relayer registered under the shared address; the fee of
+// its acknowledgement belongs to that relayer and to nobody else holding the same address for another chain.
+var SharedAddressScript = []string{"send A B feeonly1 1", "upd B A", "upd A B", "upd B A", "recv A>B#1 g6", "upd A B", "upd B A", "upd A B", "ack A>B#1 g1"}
+
 var EmptyRelayerScript = []string{"send A B feeonly1 1", "send A B erc20+callrevert 1", "upd B A", "upd A B", "upd B A", "recv A>B#1 g4", "recv A>B#2 g4", "upd A B", "upd B A", "upd A B", "ack A>B#1 g1", "ack A>B#2 g1", "ack A>B#1 g2"}
 
 // ExportRestartScripts: traffic in every stage (sent, received, acknowledged, refunded, in flight on two paths), then
@@ -1662,7 +1705,7 @@ func ScriptedViolations(prop string) (steps int, out []ScriptViol) {
 			panic(fmt.Sprintf("delay script: only %d relayed messages accepted after the delay period (the script is vacuous)", accepted))
 		}
 	}
-	for _, script := range [][]string{RestartScript, ManySendsScript, HookScript, ForgedLogScript, UpgradeScript, EmptyRelayerScript, ExportRestartScriptA, ExportRestartScriptB, CallbackScript} {
+	for _, script := range [][]string{RestartScript, ManySendsScript, HookScript, ForgedLogScript, UpgradeScript, EmptyRelayerScript, SharedAddressScript, ExportRestartScriptA, ExportRestartScriptB, CallbackScript} {
 		s := New(Config{Chains: 3, MaxSends: 14, Prop: prop})
 		for i, op := range script {
 			_, _, vs := s.Apply(op)
